@@ -127,7 +127,7 @@ def run(chk):
         cfgs += [
             ("unbounded_3cows_caps012", dict(), {"AMoveToThread"}),
             ("noshared_unbounded_rich", dict(AllowShared="FALSE", **rich), {"AMoveToThread", "ANewShared", "AShareAgain", "ADropHolder"}),
-            ("ops6_rich", dict(Threads=_set([0, 1]), MaxOps=6, FmtCaps=_set([0, 8]), **rich), set()),
+            ("ops5_rich", dict(Threads=_set([0, 1]), MaxOps=5, FmtCaps=_set([0, 8]), **rich), set()),
         ]
     if os.environ.get("C14_SKIP_MC"):   # builder's debugging knob (never set by bin/check or bin/mutcheck)
         cfgs = []
@@ -156,7 +156,7 @@ def run(chk):
     with open(progs, "w") as f:
         for dom in ("slice", "str", "key"):
             # (a) EVERY program of length k (breadth-first)
-            k = 3 if (thorough and dom != "key") else 2
+            k = 3 if (thorough and dom == "slice") else 2
             name = "sim_all%d_%s" % (k, dom)
             cfg = sim_cfg(name, dom, k, True)
             r = vlib.tlc_mc(SPEC, "SimCowOwnership", cfg, workers=4, timeout=1800, coverage=False, tag=name)
@@ -201,7 +201,7 @@ def run(chk):
     except Exception:
         pass
     chk.cov["rule"] = ("exhaustive TLC over every operation sequence (unbounded length for <= 3 cows / lengths {0,1}; bounded length "
-                       "for richer constants); implementation runs = every TLC program of length 2 (3 in thorough) per domain + "
+                       "for richer constants); implementation runs = every TLC program of length 2 per domain (length 3 for the slice domain in thorough) + "
                        "TLC -simulate programs of 20 operations + seeded random programs of 8..28 operations + real-parallel runs; "
                        "distinct = distinct programs executed; evaluations = trace states in which all observables and invariants were checked")
 
